@@ -250,6 +250,20 @@ Theorem C05_done_after :
 Proof. intros. now apply run_step_done. Qed.
 Print Assumptions C05_done_after.
 
+(* a DoDoer's own flag: after each of its recur passes that does not raise it is
+   "my deque is empty"; the DoDoer finishes by itself exactly when that is True
+   and it is not an `always` DoDoer (an `always` DoDoer keeps running with done = True) *)
+Theorem C05_dodoer_flag :
+  forall (T : Type) (TT : Time T) (tk : T) (f : nat) (s : st T) (i : id) pc t0 al kids s' r,
+    get_gen s i = GSusp pc -> get (defs s) i = Some (FNest t0 al kids) ->
+    gen_send tk (S f) s i = (s', r) ->
+    let s2 := fst (recur_pass tk f (emit (set_gen s i (GRun pc)) Recur i) i) in
+    let empty := match deeds (get_sched s2 i) with [] => true | _ => false end in
+    pass_ok (snd (recur_pass tk f (emit (set_gen s i (GRun pc)) Recur i) i)) = true ->
+    get_done s' i = Some empty /\ (r = GReturn <-> (empty = true /\ al = false)).
+Proof. intros. eapply gen_send_nest_done; eassumption. Qed.
+Print Assumptions C05_dodoer_flag.
+
 (* forced close (close() of a doer, exit() of a scheduler, at any depth) never
    touches any done flag *)
 Theorem C05_close_keeps_done :
@@ -305,6 +319,14 @@ Proof.
   split. { intros j Hj. destruct j as [|[|j]]; try lia; (split; [vm_compute; discriminate|vm_compute; reflexivity]). }
   vm_compute. repeat split.
 Qed.
+
+(* C05_dodoer_flag: DoDoer 2 of ex_limit in the entered state is suspended; its first pass leaves doers 3 and 4 alive *)
+Example C05_example_dodoer :
+  let s := entered 100 ex_limit in
+  get_gen s 2%N = GSusp 1 /\ get (defs s) 2%N = Some (FNest 0%Z false [3%N; 4%N]) /\
+  pass_ok (snd (recur_pass 2%Z 20 (emit (set_gen s 2%N (GRun 1)) Recur 2%N) 2%N)) = true /\
+  get_done (fst (gen_send 2%Z 21 s 2%N)) 2%N = Some false.
+Proof. vm_compute. repeat split. Qed.
 
 (* the same doers without a limit: all complete, the run ends at the first empty deque *)
 Definition ex_nolimit : prog Z :=
